@@ -37,6 +37,11 @@ Definition window_closing (h p w : Z) : bool :=
   if w =? 0 then false
   else (w <=? h) && (h mod w <? 2 * p).
 
+(* the same gate with the uint64 arithmetic of the code written out (votePeriod*2 may wrap) *)
+Definition window_closing_u (h p w : Z) : bool :=
+  if (w =? 0) || (h <? 0) then false
+  else (w <=? h) && (h mod w <? wrap64 (p * 2)).
+
 (* the gate as it was before the repair: height % slashWindow == 0 inside the tally gate *)
 Definition window_closing_old (h w : Z) : bool :=
   if w =? 0 then false else h mod w =? 0.
